@@ -1340,6 +1340,20 @@ func (x *relayRun) opStall(o RelayOp) {
 		relayPort = d.from.Port()
 		got = append(got, fmt.Sprintf("sent %d %d %d", ipNat(x.taddrs[d.sock]), x.tport, pl))
 	}
+	// oracle: the datagram in flight and the next `sendChannelCapacity` ones were queued (the uplink was blocked, the
+	// queue empty); every one of them that names a resolvable target must have left towards it
+	arrivedPl := map[int]bool{}
+	for _, g := range got {
+		var a, b, c int
+		fmt.Sscanf(g, "sent %d %d %d", &a, &b, &c)
+		arrivedPl[c] = true
+	}
+	for i, p := range pls {
+		if i <= relayCap && kinds[i] != 1 && !arrivedPl[p] {
+			x.fail("queued-datagram-lost", fmt.Sprintf("held resolution: datagram %d (position %d of the batch, target resolvable) was queued but never left the relay", p, i))
+			break
+		}
+	}
 	k := 0
 	for i := range pls {
 		if i > 0 {
